@@ -11,7 +11,7 @@ SHARD = 150
 RULE = ("(annotation, mapping, copy flag, generator, label subset): mappings that are partial, permuting (swaps and "
         "3-cycles), merging two labels into one, chained (a->b, b->c), mentioning absent labels, mapping onto existing "
         "labels; generators 'string', 'int' and explicit iterables; subsets incl. absent labels and the empty set; "
-        "observed: result records, labels(), uri/modality, the receiver's records after the call, and the caller's mapping left as given; regimes K0/K1; "
+        "observed: result records, labels(), uri/modality, the receiver's records after the call, the caller's mapping left as given, the same call with the mapping held in a defaultdict / dict subclass with __missing__ / OrderedDict / mappingproxy / ChainMap, caller-owned name iterators (list iterator and generator object) drained after the call; regimes K0/K1; "
         "non-trivial = the mapping touches at least two present labels")
 
 
